@@ -19,6 +19,7 @@ ROOT_NAMES = {
     "stop-flag checker": "stopFlag",
     "ultimate termination": "ultimate",
     "startup/cleanup activities": "startupCleanup",
+    "core tasks watcher": "coreWatcher",          # exists only in a tree with the repair of C20-F6
     "daemon killer": "daemonKiller",
     "poster of events": "poster",
     "admission insights chain": "admChain",
@@ -122,6 +123,8 @@ def instrument(rec: Rec, poison: dict) -> Iterator[None]:
 
     # ---- run_tasks / startup_cleanup_activities: the aiotasks calls they make -------------------------
     async def r_wait(tasks: Any, *, timeout: Any = None, return_when: Any = asyncio.ALL_COMPLETED) -> Any:
+        if rec.task_name() == "core tasks watcher":     # not a call of run_tasks / startup_cleanup_activities
+            return await aiotasks.wait(tasks, timeout=timeout, return_when=return_when)
         if return_when == asyncio.FIRST_COMPLETED:
             try:
                 done, pending = await aiotasks.wait(tasks, timeout=timeout, return_when=return_when)
@@ -175,6 +178,8 @@ def instrument(rec: Rec, poison: dict) -> Iterator[None]:
         return out
 
     async def r_reraise(tasks: Any) -> None:
+        if rec.task_name() == "core tasks watcher":
+            return await aiotasks.reraise(tasks)
         try:
             await aiotasks.reraise(tasks)
         except asyncio.CancelledError:
@@ -259,6 +264,22 @@ def instrument(rec: Rec, poison: dict) -> Iterator[None]:
             return run()
         patch(mod, attr, wrapped)
 
+    # the daemon killer's `finally:` begins (its first act: it looks for the running daemons) — also when there is none
+    orig_killer = daemons.daemon_killer
+
+    def d_killer(**kw: Any) -> Any:
+        mem, paused = kw["memories"], kw["operator_paused"]
+
+        class _Mem:
+            def __getattr__(self, n: str) -> Any:
+                return getattr(mem, n)
+
+            def iter_all_daemon_memories(self) -> Any:
+                if not paused.is_on():
+                    rec.add("killerFinally", sum(len(m.running_daemons) for m in mem.iter_all_daemon_memories()))
+                return mem.iter_all_daemon_memories()
+        return orig_killer(**{**kw, "memories": _Mem()})
+    patch(daemons, "daemon_killer", d_killer)
     entering(daemons, "daemon_killer")
     entering(activities, "authenticator")
     entering(posting, "poster")
@@ -328,7 +349,10 @@ def instrument(rec: Rec, poison: dict) -> Iterator[None]:
 
     def q_wait_for_depletion(**kw: Any) -> Any:
         kind, ref = rec.ref()
-        rec.add("depletionBegin", kind, ref)
+        # called inside the watcher's `finally:` — the exception in flight says WHY the watcher is ending: None (the stream
+        # is over), CancelledError, the stream's own error, APINotFoundError, or the RuntimeError of a failed worker
+        exc = sys.exc_info()[1]
+        rec.add("depletionBegin", kind, ref, type(exc).__name__ if exc is not None else None)
         return orig_depl(**kw)
 
     patch(queueing, "_wait_for_depletion", q_wait_for_depletion)
